@@ -105,7 +105,9 @@ def part_b(chk):
                 cfg = dict(clients=[dict(threads=[[("allocate", L)]], mode=mode)], explored=("down", "up", "api", "connect"),
                            post_init=post)
                 w = MailboxWorld(cfg, seed())
-                while w.enabled():
+                steps = 0
+                while w.enabled() and steps < 500:
+                    steps += 1
                     w.apply(w.enabled()[0])
                 n += 1
                 codes = [v for k, v in w.clients[0].app.obs if k == "code"]
@@ -140,12 +142,17 @@ def part_c(chk):
             sent = []
             w.apply(("connect", 0))
             w.apply(("api", 0, 0))
-            while w.enabled():
+            steps = 0
+            while w.enabled() and steps < 300:
+                steps += 1
                 ev = w.enabled()[0]
                 if ev[0] == "up":
                     sent.append(json.loads(w.clients[0].conn.up[0].decode())["type"])
                 w.apply(ev)
             n += 1
+            if steps >= 300:
+                viol.append(dict(oracle="malformed-code", sig="livelock:%r" % code,
+                                 msg="set_code(%r): the client and the server never quiesce (server errors %r)" % (code, w.server_errors[:2]), case=code))
             errs = w.clients[0].app.api_errors
             keys.add((code, tuple(errs)))
             if bad:
